@@ -229,5 +229,25 @@ func runC25(c *core.Ctx) {
 			}, core.AnyReturn, nil, "eviction removes from "+m[0])
 		}
 	}
+	// creating a sender's list is check-then-act under the map mutex: the lookup that found nothing and the
+	// insertion happen in one critical section, otherwise two goroutines both create a list and one overwrites the other
+	if fn := anchorM(c, pkg, "txListBySenderMap", "getOrAddListForSender"); fn != nil {
+		mu := c.P.Field(pkg, "txListBySenderMap", "mutex")
+		modes := core.LockModes(fn, mu, core.ModeNone)
+		for i, add := range callsMatching(fn, pkg, "txListBySenderMap", "addSender") {
+			ok := modes[add] == core.ModeW
+			lookedUpLocked := false
+			for _, cd := range core.CondsAt(add.Block()) {
+				if ex, isEx := cd.V.(*ssa.Extract); isEx && ex.Index == 1 && !cd.Taken {
+					if call, isC := ex.Tuple.(*ssa.Call); isC && core.CallDesc(&call.Call).Name == "getListForSender" && modes[call] == core.ModeW {
+						lookedUpLocked = true
+					}
+				}
+			}
+			c.Check(ok && lookedUpLocked, "C25/both-indexes-updated", fmt.Sprintf("txListBySenderMap.getOrAddListForSender/addSender#%d", i), add.Pos(),
+				"the sender's list is created under the mutex, after a lookup under the same mutex found none",
+				"a sender's list is created without re-checking, under the mutex, that it does not exist yet: concurrent first transactions of a sender create two lists, one overwrites the other and its transactions stay only in the by-hash index")
+		}
+	}
 	c.Floor("C25/both-indexes-updated", 7)
 }
